@@ -145,6 +145,10 @@ pub fn minimize(
 
         // 4. shrink string arguments of operations (drop characters)
         for i in 0..best.ops.len() {
+            // only sentence-carrying operations: elsewhere the strings are stream names or id lists
+            if best.ops[i].kind != "Reset" {
+                continue;
+            }
             for k in 0..best.ops[i].s.len() {
                 let chars: Vec<char> = best.ops[i].s[k].chars().collect();
                 if chars.len() > 24 {
